@@ -46,7 +46,22 @@ fn sig_text(s: &gix_actor::SignatureRef<'_>) -> Result<Vec<u8>, String> {
     Ok(v)
 }
 
-#[derive(PartialEq, Debug)]
+impl std::fmt::Debug for CommitView {
+    fn fmt(&self, f: &mut std::fmt::Formatter<'_>) -> std::fmt::Result {
+        write!(
+            f,
+            "{{tree {}, parents {:?}, author {:?}, committer {:?}, encoding {:?}, extra {:?}, message {:?}}}",
+            self.tree,
+            self.parents,
+            self.author.as_bstr(),
+            self.committer.as_bstr(),
+            self.encoding.as_ref().map(|e| e.as_bstr()),
+            self.extra.iter().map(|(k, v)| (k.as_bstr(), v.as_bstr())).collect::<Vec<_>>(),
+            self.message.as_bstr()
+        )
+    }
+}
+#[derive(PartialEq)]
 struct CommitView {
     tree: ObjectId,
     parents: Vec<ObjectId>,
@@ -56,6 +71,9 @@ struct CommitView {
     extra: Vec<(Vec<u8>, Vec<u8>)>,
     message: Vec<u8>,
 }
+
+static CR_MULTI: AtomicU64 = AtomicU64::new(0);
+static CR_MERGE: AtomicU64 = AtomicU64::new(0);
 
 fn check_commit(bytes: &[u8], git_id: ObjectId) -> Result<String, String> {
     let show = || bytes.as_bstr();
@@ -130,6 +148,9 @@ fn check_commit(bytes: &[u8], git_id: ObjectId) -> Result<String, String> {
         expect.extra.push((k.to_vec(), v.clone()));
         next = h.next();
     }
+    if expect.extra.iter().any(|(_, v)| v.contains(&b'\n') && v.contains(&b'\r')) {
+        CR_MULTI.fetch_add(1, Relaxed);
+    }
     let mut got = full_view;
     for (_, v) in &mut got.extra {
         // gitoxide keeps the LF that ends a multi-line value
@@ -203,8 +224,9 @@ fn check_commit(bytes: &[u8], git_id: ObjectId) -> Result<String, String> {
     }
     let multi = expect.extra.iter().filter(|(_, v)| v.contains(&b'\n')).count();
     let empty_cont = expect.extra.iter().any(|(_, v)| v.split_str("\n").skip(1).any(|l| l.is_empty()));
+    let cr_multi = expect.extra.iter().any(|(_, v)| v.contains(&b'\n') && v.contains(&b'\r'));
     Ok(format!(
-        "commit/p{}{}{}{}{}",
+        "commit/p{}{}{}{}{}{}",
         expect.parents.len().min(2),
         if expect.encoding.is_some() { "/enc" } else { "" },
         match (expect.extra.len(), multi) {
@@ -214,6 +236,7 @@ fn check_commit(bytes: &[u8], git_id: ObjectId) -> Result<String, String> {
             _ => "/extras-multi",
         },
         if empty_cont { "/empty-continuation" } else { "" },
+        if cr_multi { "/CR-in-multi-line-value" } else { "" },
         if expect.message.is_empty() {
             "/msg-empty"
         } else if expect.message.ends_with(b"\n") {
@@ -508,6 +531,7 @@ fn messages() -> Vec<Vec<u8>> {
         b" leading space\n continuation-like\n".to_vec(),
         b"gpgsig fake\n more\n\ntext".to_vec(),
         b"a\n-----BEGIN PGP SIGNATURE-----\nno end marker\n".to_vec(),
+        b"subject\r\n\r\nbody\r\nlone\rcr\r\n".to_vec(),
     ]
 }
 fn signatures() -> Vec<Vec<u8>> {
@@ -520,6 +544,13 @@ fn signatures() -> Vec<Vec<u8>> {
         b"A\n  indented\n\ttab\n".to_vec(),
         b"-----BEGIN SSH SIGNATURE-----\nU1NIU0lH\n-----END SSH SIGNATURE-----\n".to_vec(),
         "sig é\n\n ü\n".as_bytes().to_vec(),
+        // CR handling (appended so that indices used elsewhere stay stable): every line CRLF, one inner line CRLF, only the
+        // last line CRLF, a lone CR inside a line. (`commit-tree -S` strips CR before LF from the signing program's output,
+        // `hash-object` and `merge` keep them.)
+        b"-----BEGIN PGP SIGNATURE-----\r\n\r\niQEz\r\n=abcd\r\n-----END PGP SIGNATURE-----\r\n".to_vec(),
+        b"-----BEGIN PGP SIGNATURE-----\nabc\r\ndef\n-----END PGP SIGNATURE-----\n".to_vec(),
+        b"-----BEGIN PGP SIGNATURE-----\nabc\n-----END PGP SIGNATURE-----\r\n".to_vec(),
+        b"-----BEGIN PGP SIGNATURE-----\nab\rc\n\r\n-----END PGP SIGNATURE-----\n".to_vec(),
     ]
 }
 
@@ -560,8 +591,8 @@ pub fn run(run: &'static Run) {
     let thorough = !run.quick();
     run.rule(
         "every object is created by git 2.39.5 and read back with cat-file. \
-         sub commit-tree: `git commit-tree [-S]` (gpg.program = script printing a chosen signature) over messages {15 shapes: empty, un/terminated, blank lines, unicode, binary, PGP blocks, header look-alikes} \
-         x gpgsig values {none + 8: PGP with empty line, single line, trailing blank continuation, inner blank lines, indented, SSH, unicode} x parents 0..3 x encoding {none, ISO-8859-1} x 5 author / 5 committer identities (thorough: message x signature x encoding with one parent, parents 0..3 with {unsigned, first signature}, all 25 identity pairs signed and unsigned; quick: every message unsigned, every signature on the first message, three messages signed, parents/encoding on one commit, 5 identities); \
+         sub commit-tree: `git commit-tree [-S]` (gpg.program = script printing a chosen signature) over messages {16 shapes: CRLF body, empty, un/terminated, blank lines, unicode, binary, PGP blocks, header look-alikes} \
+         x gpgsig values {none + 12: PGP with empty line, single line, trailing blank continuation, inner blank lines, indented, SSH, unicode, and CR shapes: every line CRLF, one line CRLF, last line CRLF, lone CR inside a line} x parents 0..3 x encoding {none, ISO-8859-1} x 5 author / 5 committer identities (thorough: message x signature x encoding with one parent, parents 0..3 with {unsigned, first signature}, all 25 identity pairs signed and unsigned; quick: every message unsigned, every signature on the first message, three messages signed, parents/encoding on one commit, 5 identities); \
          sub commit-raw: commits with header blocks git emits elsewhere (mergetag, several extra headers, gpgsig-sha256, HG:* headers, encoding before extras) validated and stored by `git hash-object -t commit -w --stdin-paths`; \
          sub tag: kind {commit,tree,blob} x 6 names x tagger {none + 5} x 9 messages x 6 signature blocks (full product for the first kind/name, a slice for the others), created by `git mktag` (strict; --no-strict without tagger) for every 4th (quick: 12th) case and by `git hash-object -t tag -w` for the rest; \
          sub tree: `git mktree -z --missing` over names with spaces, quotes, LF, unicode, 0xff and modes 100644 100755 100664 120000 40000 160000; \
@@ -773,6 +804,7 @@ pub fn run(run: &'static Run) {
                 b"\xff bin\n".to_vec(),
                 b"trailing\n\n".to_vec(),
                 b"-----BEGIN PGP MESSAGE-----\nnot a signature\n".to_vec(),
+                b"subject\r\n\r\nbody\r\n".to_vec(),
             ];
             let tag_sigs: Vec<Vec<u8>> = vec![
                 b"".to_vec(),
@@ -781,6 +813,7 @@ pub fn run(run: &'static Run) {
                 b"-----BEGIN PGP SIGNATURE-----\nabc\n-----END PGP SIGNATURE-----\ntrailing text\n".to_vec(),
                 b"-----BEGIN SSH SIGNATURE-----\nU1NI\n-----END SSH SIGNATURE-----\n".to_vec(),
                 b"-----BEGIN PGP SIGNATURE-----\nno end\n".to_vec(),
+                b"-----BEGIN PGP SIGNATURE-----\r\n\r\niQEz\r\n-----END PGP SIGNATURE-----\r\n".to_vec(),
             ];
             let targets = [("commit", fx.parents[0].clone()), ("tree", fx.tree.clone()), ("blob", fx.blob.clone())];
             for (ki, (kind, target)) in targets.iter().enumerate() {
@@ -896,12 +929,16 @@ pub fn run(run: &'static Run) {
         "merge",
         vkit::Opts::default().chunk(32),
         |emit| {
-            let tmsgs: Vec<&[u8]> = if thorough { vec![b"release\n", b"subject\n\nbody\n", "é\n\n".as_bytes()] } else { vec![b"release\n"] };
+            let tmsgs: Vec<&[u8]> = if thorough {
+                vec![b"release\n", b"subject\n\nbody\n", "é\n\n".as_bytes(), b"release\r\n\r\nnotes\r\nlone\rcr\n"]
+            } else {
+                vec![b"release\n", b"release\r\n\r\nnotes\r\nlone\rcr\n"]
+            };
             let tsigs: Vec<&Vec<u8>> = if thorough { vec![&sigs[0], &sigs[6]] } else { vec![&sigs[0]] };
             for tm in &tmsgs {
                 for ts in &tsigs {
                     for (amend, sign) in [(false, None), (false, Some(B(sigs[0].clone()))), (true, None)] {
-                        if !thorough && amend {
+                        if !thorough && (amend || tm.contains(&b'\r') && sign.is_some()) {
                             continue;
                         }
                         emit(MergeCase { tag_message: B(tm.to_vec()), tag_sig: B((*ts).clone()), merge_message: B(b"Merge tag\n\ndetails".to_vec()), amend, sign_merge: sign });
@@ -952,6 +989,12 @@ pub fn run(run: &'static Run) {
             }
             let head = String::from_utf8_lossy(&g(&["rev-parse", "HEAD"], None, None)).trim().to_string();
             let bytes = g(&["cat-file", "commit", &head], None, None);
+            if c.tag_message.contains(&b'\r') {
+                if !bytes.contains_str("\r\n ") {
+                    vkit::machinery!("git merge did not keep the CRLF lines of the tag in the mergetag header: {:?}", bytes.as_bstr());
+                }
+                CR_MERGE.fetch_add(1, Relaxed);
+            }
             if !bytes.contains_str("\nmergetag object ") {
                 vkit::machinery!("git merge did not write a mergetag header: {:?}", bytes.as_bstr());
             }
@@ -977,5 +1020,7 @@ pub fn run(run: &'static Run) {
     );
     run.cov_add("oracle_calls_git", 2 * run.sub_evaluations("commit-tree") + 14 * run.sub_evaluations("merge"));
     run.require("signed commits with an empty continuation line were decoded", run.outcome_count("commit/p1/extra-multi/empty-continuation") > 0);
+    run.cov("commits_with_CR_in_multi_line_header", CR_MULTI.load(Relaxed));
+    run.require("commits whose multi-line header value contains CR (hash-object and real merge) were decoded", CR_MULTI.load(Relaxed) > 0 && CR_MERGE.load(Relaxed) > 0);
     run.require("tags without tagger and with pgp block were decoded", run.outcome_count("tag/commit/no-tagger/pgp") > 0);
 }
